@@ -247,6 +247,7 @@ def check_from_utf8_unchecked(b, bb, t):
     # operand = &*&*index(src, RangeTo{valid_up_to})
     cur = l
     idx_call = None
+    split_call = None
     for _ in range(8):
         defs = b.defs.get(cur, [])
         if len(defs) != 1:
@@ -258,23 +259,43 @@ def check_from_utf8_unchecked(b, bb, t):
                 cur = pl['l']
                 continue
             break
+        if kind == 'assign' and s['rv']['k'] == 'use':
+            pl = op_place(s['rv']['op'])
+            if pl is not None and not pl['p']:
+                cur = pl['l']
+                continue
+            if pl is not None and len(pl['p']) == 1 and pl['p'][0]['k'] == 'field' and str(pl['p'][0]['n']) == '0':
+                # `.0` of `buf.split_at(n)`: the first n bytes
+                d2 = b.defs.get(pl['l'], [])
+                if len(d2) == 1 and d2[0][2] == 'call':
+                    c2 = callee_of(d2[0][3])
+                    if c2 and c2['name'] == 'split_at' and 'slice' in c2['path']:
+                        split_call = d2[0][3]
+            break
         if kind == 'call':
             idx_call = s
             break
         break
-    if idx_call is None:
+    if split_call is not None:
+        base_l = op_local(split_call['args'][0])
+        base = resolve_ref(b, base_l, stop_at_multi=True) if base_l is not None else None
+        if base is None and base_l is not None:
+            base = {'l': base_l, 'p': []}
+        end_l = op_local(split_call['args'][1])
+    elif idx_call is None:
         return False, 'argument of from_utf8_unchecked is not an indexed slice'
-    c = callee_of(idx_call)
-    if not c or c['name'] != 'index' or 'std::ops::RangeTo<usize>' not in c['full']:
-        return False, ('from_utf8_unchecked is applied to `%s`; only `&src[..valid_up_to]` (an exclusive RangeTo) of '
-                       'the validated buffer is known to be valid UTF-8' % (c['full'] if c else '?'))
-    base_l = op_local(idx_call['args'][0])
-    base = resolve_ref(b, base_l, stop_at_multi=True) if base_l is not None else None
-    rng_l = op_local(idx_call['args'][1])
-    vd = value_def(b, rng_l) if rng_l is not None else None
-    if not vd or vd[0] != 'assign' or vd[1]['rv']['k'] != 'aggr' or not vd[1]['rv'].get('adt', '').startswith('std::ops::RangeTo'):
-        return False, 'slice range is not a plain `..end`'
-    end_l = op_local(vd[1]['rv']['ops'][0])
+    else:
+        c = callee_of(idx_call)
+        if not c or c['name'] != 'index' or 'std::ops::RangeTo<usize>' not in c['full']:
+            return False, ('from_utf8_unchecked is applied to `%s`; only `&src[..valid_up_to]` (an exclusive RangeTo) of '
+                           'the validated buffer is known to be valid UTF-8' % (c['full'] if c else '?'))
+        base_l = op_local(idx_call['args'][0])
+        base = resolve_ref(b, base_l, stop_at_multi=True) if base_l is not None else None
+        rng_l = op_local(idx_call['args'][1])
+        vd = value_def(b, rng_l) if rng_l is not None else None
+        if not vd or vd[0] != 'assign' or vd[1]['rv']['k'] != 'aggr' or not vd[1]['rv'].get('adt', '').startswith('std::ops::RangeTo'):
+            return False, 'slice range is not a plain `..end`'
+        end_l = op_local(vd[1]['rv']['ops'][0])
     root, pl, casts = copies_of(b, end_l) if end_l is not None else (None, None, [])
     end_defs = b.defs.get(root, []) if root is not None else []
     if len(end_defs) != 1 or end_defs[0][2] != 'call' or callee_of(end_defs[0][3])['path'] != 'std::str::Utf8Error::valid_up_to':
